@@ -388,13 +388,19 @@ func RunCheck(o CheckOptions) int {
 			crossRep[len(natIn)-1] = pn.rep
 		}
 		// distinct counterexamples: one per (label, facts)
-		seen := map[string]bool{}
+		// (for counterexamples that depend on a thread schedule or a map iteration order, which
+		// the native run cannot be forced into, up to six different ones are tried)
+		seen := map[string]int{}
 		for _, ob := range pn.cexObs {
 			key := ob.Label + "|" + factsKey(ob.Facts)
-			if seen[key] {
+			lim := 1
+			if ob.Facts["_maporder"] != "" || ob.Facts["_schedule"] != "" {
+				lim = 6
+			}
+			if seen[key] >= lim {
 				continue
 			}
-			seen[key] = true
+			seen[key]++
 			rec := &cexRecord{Property: o.Prop, Harness: pn.h.Name(), Package: pn.rep.Package, Label: ob.Label, Tier: o.Tier,
 				Kind: "R1", Vals: ob.Model, Decisions: ob.Decs, Facts: ob.Facts, Trace: ob.Trace, RepoHead: head}
 			allCex = append(allCex, rec)
